@@ -37,7 +37,10 @@ pub fn family(th: bool) -> Vec<(String, Envelope)> {
     let specials: Vec<(&str, Envelope)> = vec![
         ("signed", sig_assertion), ("hasRecipient", rec_assertion), ("sskrShare", share_assertion),
         ("isA", Envelope::new_assertion(known_values::IS_A, "T")), ("isA-kv", Envelope::new_assertion(known_values::IS_A, known_values::NOTE)),
-        ("sskrShare-junk", Envelope::new_assertion(known_values::SSKR_SHARE, "notashare")), ("attachment-junk", Envelope::new_assertion(known_values::ATTACHMENT, "notanattachment")),
+        ("sskrShare-junk", Envelope::new_assertion(known_values::SSKR_SHARE, "notashare")),
+        ("sskrShare-empty-bytes", Envelope::new_assertion(known_values::SSKR_SHARE, CBOR::to_tagged_value(bc_components::tags::TAG_SSKR_SHARE, CBOR::to_byte_string(Vec::<u8>::new())))),
+        ("sskrShare-one-byte", Envelope::new_assertion(known_values::SSKR_SHARE, CBOR::to_tagged_value(bc_components::tags::TAG_SSKR_SHARE, CBOR::to_byte_string(vec![7u8])))),
+        ("sskrShare-five-bytes", Envelope::new_assertion(known_values::SSKR_SHARE, CBOR::to_tagged_value(bc_components::tags::TAG_SSKR_SHARE, CBOR::to_byte_string(vec![7u8; 5])))), ("attachment-junk", Envelope::new_assertion(known_values::ATTACHMENT, "notanattachment")),
         ("attachment", Envelope::new_attachment("payload", "v", Some("c"))), ("salt", Envelope::new_assertion(known_values::SALT, salt.clone())),
         ("signed-junk", Envelope::new_assertion(known_values::SIGNED, "junk")), ("hasRecipient-junk", Envelope::new_assertion(known_values::HAS_RECIPIENT, "junk")),
         ("result", Envelope::new_assertion(known_values::RESULT, "r")), ("error", Envelope::new_assertion(known_values::ERROR, "e")), ("body", Envelope::new_assertion(known_values::BODY, "b")), ("content", Envelope::new_assertion(known_values::CONTENT, "c")),
